@@ -217,154 +217,211 @@ def keyOfArray (t : ArrT) (data : Bytes) : Option NormKey :=
 
 def methodOfName : Method → Method := id
 
-/-- Interpreter.  `fuel` decreases at every statement (structural recursion); `fuel0`
-    exceeds the longest statement sequence any reachable call can execute (≤ 7 statements
-    per method, dispatch depth ≤ 3 since marked-object rules are never stacked on one
-    another), so running out of fuel is unreachable — and would be a rejection, not an
+/-- result of one statement -/
+inductive Step
+  | next (s : RState) (args : Args)                      -- go on with the next statement
+  | ret (s : RState)                                     -- early `return`
+  | call (s : RState) (r : Rule) (m : Method) (args : Args) (thenRet : Bool)
+      -- call rule r's method m (a nested EventRule call), then go on (or return)
+deriving Inhabited
+
+/-- tryEndArray(false, nil) / EndChunk*: leave the array and notify the parent rule -/
+def leaveArray (s : RState) (args : Args) (thenRet : Bool) : M Step := do
+  let cType := s.cur.dataType
+  let s1 ← unstackRule s
+  -- the parent's OnChildContainerEnded(ctx, cType) receives nothing but the container type
+  let _ := args
+  pure (.call s1 s1.cur.rule .onChildContainerEnded { cType := cType } thenRet)
+
+def actBeginRecordType (cfg : Cfg)  (s : RState) (args : Args) : M Step :=
+  if s.stack.length ≠ 0 then .error .recordTypeNotAllowed
+  else if (s.recordTypes.find? (·.1 == args.id)).isSome then .error .dupRecordType
+  else do
+    let s1 ← beginContainer cfg s .recordType DT.recordType none
+    pure (.next { s1 with recordTypeName := args.id } args)
+
+def actBeginRecord (cfg : Cfg)  (s : RState) (args : Args) : M Step :=
+  match (s.recordTypes.find? (·.1 == args.id)) with
+  | none => .error .noRecordType
+  | some (_, n) => do pure (.next (← beginContainer cfg s .record DT.record (some n)) args)
+
+def actEndContainer (cfg : Cfg) (notify : Bool) (s : RState) (args : Args) : M Step :=
+  do
+  if s.depth = 0 then throw RErr.tooManyEnds
+  match s.cur.expected with
+  | some ex => if s.cur.current ≠ ex then throw RErr.count
+  | none => pure ()
+  let s1 ← if s.cur.dataType = DT.recordType then
+      (if (s.recordTypes.find? (·.1 == s.recordTypeName)).isSome then throw RErr.dupRecordType
+       else pure { s with recordTypes := (s.recordTypeName, s.cur.current) :: s.recordTypes })
+    else pure s
+  let cType := s1.cur.dataType
+  let s2 ← unstackRule { s1 with depth := s1.depth - 1 }
+  if notify then pure (.call s2 s2.cur.rule .onChildContainerEnded { cType := cType } false)
+  else pure (.next s2 args)
+
+def actNotifyKey (cfg : Cfg)  (s : RState) (args : Args) : M Step :=
+  match args.key with
+  | some k => do pure (.next (← notifyKey s k) args)
+  | none => .ok (.next s args)
+
+def actNotifyKeyOfArray (cfg : Cfg)  (s : RState) (args : Args) : M Step :=
+  match keyOfArray args.arrT args.data with
+  | some k => do pure (.next (← notifyKey s k) args)
+  | none => .ok (.next s args)
+
+def actNotifyKeyOfBuilt (cfg : Cfg)  (s : RState) (args : Args) : M Step :=
+  if args.cType = DT.string then do pure (.next (← notifyKey s (.str s.built)) args)
+  else if args.cType = DT.resourceID then do pure (.next (← notifyKey s (.rid s.built)) args)
+  else .ok (.next s args)
+
+def actBeginMarkerKeyable (cfg : Cfg) (m : Mask) (s : RState) (args : Args) : M Step :=
+  let s1 := stackRule { s with markerID := args.id } .markedObjectKeyable m.bits none
+  .ok (.next { s1 with cur := { s1.cur with markerID := args.id } } args)
+
+def actBeginMarkerAny (cfg : Cfg) (m : Mask) (s : RState) (args : Args) : M Step :=
+  let s1 := stackRule { s with markerID := args.id } .markedObjectAnyType m.bits none
+  .ok (.next { s1 with cur := { s1.cur with markerID := args.id } } args)
+
+def actValidateFullKeyable (cfg : Cfg)  (s : RState) (args : Args) : M Step :=
+  do
+  assertArrayType args.arrT .keyable
+  validateFullAny cfg args.arrT args.count args.data
+  pure (.next s args)
+
+def actValidateFullStringlikeKeyable (cfg : Cfg)  (s : RState) (args : Args) : M Step :=
+  do
+  assertArrayType args.arrT .keyable
+  validateFullStringlike cfg args.arrT args.data
+  pure (.next s args)
+
+def actBeginArrayKeyable (cfg : Cfg)  (s : RState) (args : Args) : M Step :=
+  do
+  assertArrayType args.arrT .keyable
+  pure (.next (← beginArrayAny cfg s args.arrT) args)
+
+def actParentDispatch (cfg : Cfg) (m : Method) (s : RState) (args : Args) : M Step :=
+  do
+  let r ← parentRule s
+  pure (.call s r m args false)
+
+def actLookupArrayDataType (cfg : Cfg)  (s : RState) (args : Args) : M Step :=
+  match arrayDT args.arrT with
+  | none => .error .runtime
+  | some dt => .ok (.next s { args with arrDT := dt })
+
+def actMarkObject (cfg : Cfg) (src : ObjSrc) (s : RState) (args : Args) : M Step :=
+  let dt := match src with
+    | .objType => args.objType | .arrayDataType => args.arrDT | .cType => args.cType | .null => DT.null
+  do pure (.next (← markObject cfg s dt) args)
+
+def actZeroChunkReturn (cfg : Cfg)  (s : RState) (args : Args) : M Step :=
+  if args.length = 0 then
+    -- tryEndArray(more, nil); return
+    if args.more then .ok (.ret s) else leaveArray s args true
+  else .ok (.next s args)
+
+/-- bytes a chunk of `n` elements declares -/
+def chunkBytes (k : ChunkKind) (s : RState) (n : Nat) : Nat :=
+  match k with
+  | .any => elemsToBytes s.arrayType.elemBits n
+  | _ => n
+
+def chunkRule : ChunkKind → Rule
+  | .any => .arrayChunk | .string => .stringChunk | .stringBuilder => .stringBuilderChunk
+
+def actBeginChunk (cfg : Cfg) (k : ChunkKind) (s : RState) (args : Args) : M Step :=
+  let _ := cfg
+  if (s.arrayTotal + chunkBytes k s args.length) % 2 ^ 64 > s.arrayMax ∧ s.arrayMax > 0 then .error .limitArray
+  else if args.length > 0 then
+    -- elemCount > 0 always here (zeroChunkReturn ran first)
+    .ok (.next (changeRule { s with chunkExpected := chunkBytes k s args.length,
+                                    arrayTotal := (s.arrayTotal + chunkBytes k s args.length) % 2 ^ 64,
+                                    chunkActual := 0, moreChunks := args.more } (chunkRule k)) args)
+  else .error .runtime
+
+def actMarkCompletedChunk (cfg : Cfg)  (s : RState) (args : Args) : M Step :=
+  let actual := s.chunkActual + args.data.length
+  if actual > s.chunkExpected then .error .chunkOverflow else .ok (.next { s with chunkActual := actual } args)
+
+def actEndChunkIfComplete (cfg : Cfg) (k : ChunkKind) (s : RState) (args : Args) : M Step :=
+  if s.chunkActual = s.chunkExpected then
+    match k with
+    | .any => if s.moreChunks then .ok (.next (changeRule s .array) args) else leaveArray s args false
+    | _ =>
+      if s.utf8Rem.length > 0 then .error .utf8
+      else if s.moreChunks then .ok (.next (changeRule s .string) args)
+      else leaveArray s args false
+  else .ok (.next s args)
+
+def actStreamStringData (cfg : Cfg)  (s : RState) (args : Args) : M Step :=
+  do
+  let (s1, first, next) ← streamStringData s args.data
+  pure (.next s1 { args with first := first, next := next })
+
+/-- one statement of a rule method, without the nested calls (those are returned as `.call`) -/
+def execAct (cfg : Cfg) (a : Act) (s : RState) (args : Args) : M Step :=
+  match a with
+  | .wrongType => .error .wrongType
+  | .unknown _ => .error .unknownAct
+  | .changeRule r => .ok (.next (changeRule s r) args)
+  | .beginList => do pure (.next (← beginContainer cfg s .list DT.list none) args)
+  | .beginMap => do pure (.next (← beginContainer cfg s .mapKey DT.map none) args)
+  | .beginEdge => do pure (.next (← beginContainer cfg s .edgeSource DT.edge (some 3)) args)
+  | .beginNode => do pure (.next (← beginContainer cfg s .node DT.list none) args)
+  | .beginRecordType => actBeginRecordType cfg s args
+  | .beginRecord => actBeginRecord cfg s args
+  | .endContainer notify => actEndContainer cfg notify s args
+  | .endDocument => if s.forward.length > 0 then .error .forwardUnresolved else .ok (.next (changeRule s .terminal) args)
+  | .checkVersion => if args.version ≠ 0 then .error .version else .ok (.next s args)
+  | .notifyKey => actNotifyKey cfg s args
+  | .notifyKeyOfArray => actNotifyKeyOfArray cfg s args
+  | .notifyKeyOfBuilt => actNotifyKeyOfBuilt cfg s args
+  | .beginMarkerKeyable m => actBeginMarkerKeyable cfg m s args
+  | .beginMarkerAny m => actBeginMarkerAny cfg m s args
+  | .localRefKeyable => do pure (.next (← localReference s args.id Mask.keyable.bits) args)
+  | .localRefAny => do pure (.next (← localReference s args.id Mask.any.bits) args)
+  | .validateFullAny => do validateFullAny cfg args.arrT args.count args.data; pure (.next s args)
+  | .validateFullStringlike => do validateFullStringlike cfg args.arrT args.data; pure (.next s args)
+  | .validateFullKeyable => actValidateFullKeyable cfg s args
+  | .validateFullStringlikeKeyable => actValidateFullStringlikeKeyable cfg s args
+  | .assertArrayType m => do assertArrayType args.arrT m; pure (.next s args)
+  | .beginArrayAny => do pure (.next (← beginArrayAny cfg s args.arrT) args)
+  | .beginArrayKeyable => actBeginArrayKeyable cfg s args
+  | .unstack => do pure (.next (← unstackRule s) args)
+  | .redispatch m emptyKey => .ok (.call s s.cur.rule m (if emptyKey then { args with key := none } else args) false)
+  | .parentDispatch m => actParentDispatch cfg m s args
+  | .lookupArrayDataType => actLookupArrayDataType cfg s args
+  | .markObject src => actMarkObject cfg src s args
+  | .restoreMarkerID => .ok (.next { s with markerID := s.cur.markerID } args)
+  | .zeroChunkReturn => actZeroChunkReturn cfg s args
+  | .beginChunk k => actBeginChunk cfg k s args
+  | .markCompletedChunk => actMarkCompletedChunk cfg s args
+  | .endChunkIfComplete k => actEndChunkIfComplete cfg k s args
+  | .streamStringData => actStreamStringData cfg s args
+  | .validateFirst => do (if s.validator = .string then validateUtf8 args.first else pure ()); pure (.next s args)
+  | .validateNext => do (if s.validator = .string then validateUtf8 args.next else pure ()); pure (.next s args)
+  | .addFirst => .ok (.next { s with built := s.built ++ args.first } args)
+  | .addNext => .ok (.next { s with built := s.built ++ args.next } args)
+  | .addBuiltData => .ok (.next { s with built := s.built ++ args.data } args)
+
+/-- Interpreter.  `fuel` decreases at every statement and every nested call (structural
+    recursion); `fuel0` exceeds the longest statement sequence any reachable call can execute
+    (≤ 7 statements per method, nesting depth ≤ 3 since marked-object rules are never stacked
+    on one another), so running out of fuel is unreachable — and would be a rejection, not an
     acceptance. -/
 def runActs (tbl : RuleTable) (cfg : Cfg) : Nat → List Act → RState → Args → M RState
   | _, [], s, _ => .ok s
   | 0, _ :: _, _, _ => .error .runtime
   | fuel + 1, a :: rest, s, args =>
-    let cont (s' : RState) (args' : Args := args) : M RState := runActs tbl cfg fuel rest s' args'
-    let dispatch (s' : RState) (r : Rule) (m : Method) (args' : Args) : M RState :=
-      runActs tbl cfg fuel (tbl r m) s' args'
-    match a with
-    | .wrongType => .error .wrongType
-    | .unknown _ => .error .unknownAct
-    | .changeRule r => cont (changeRule s r)
-    | .beginList => do cont (← beginContainer cfg s .list DT.list none)
-    | .beginMap => do cont (← beginContainer cfg s .mapKey DT.map none)
-    | .beginEdge => do cont (← beginContainer cfg s .edgeSource DT.edge (some 3))
-    | .beginNode => do cont (← beginContainer cfg s .node DT.list none)
-    | .beginRecordType =>
-      if s.stack.length ≠ 0 then .error .recordTypeNotAllowed
-      else if (s.recordTypes.find? (·.1 == args.id)).isSome then .error .dupRecordType
-      else do
-        let s1 ← beginContainer cfg s .recordType DT.recordType none
-        cont { s1 with recordTypeName := args.id }
-    | .beginRecord =>
-      match (s.recordTypes.find? (·.1 == args.id)) with
-      | none => .error .noRecordType
-      | some (_, n) => do cont (← beginContainer cfg s .record DT.record (some n))
-    | .endContainer notify => do
-      if s.depth = 0 then throw RErr.tooManyEnds
-      match s.cur.expected with
-      | some ex => if s.cur.current ≠ ex then throw RErr.count
-      | none => pure ()
-      let s1 ← if s.cur.dataType = DT.recordType then
-          (if (s.recordTypes.find? (·.1 == s.recordTypeName)).isSome then throw RErr.dupRecordType
-           else pure { s with recordTypes := (s.recordTypeName, s.cur.current) :: s.recordTypes })
-        else pure s
-      let cType := s1.cur.dataType
-      let s2 ← unstackRule { s1 with depth := s1.depth - 1 }
-      let s3 ← if notify then dispatch s2 s2.cur.rule .onChildContainerEnded { args with cType := cType } else pure s2
-      cont s3
-    | .endDocument =>
-      if s.forward.length > 0 then .error .forwardUnresolved else cont (changeRule s .terminal)
-    | .checkVersion => if args.version ≠ 0 then .error .version else cont s
-    | .notifyKey =>
-      match args.key with
-      | some k => do cont (← notifyKey s k)
-      | none => cont s
-    | .notifyKeyOfArray =>
-      match keyOfArray args.arrT args.data with
-      | some k => do cont (← notifyKey s k)
-      | none => cont s
-    | .notifyKeyOfBuilt =>
-      if args.cType = DT.string then do cont (← notifyKey s (.str s.built))
-      else if args.cType = DT.resourceID then do cont (← notifyKey s (.rid s.built))
-      else cont s
-    | .beginMarkerKeyable m =>
-      let s1 := stackRule { s with markerID := args.id } .markedObjectKeyable m.bits none
-      cont { s1 with cur := { s1.cur with markerID := args.id } }
-    | .beginMarkerAny m =>
-      let s1 := stackRule { s with markerID := args.id } .markedObjectAnyType m.bits none
-      cont { s1 with cur := { s1.cur with markerID := args.id } }
-    | .localRefKeyable => do cont (← localReference s args.id Mask.keyable.bits)
-    | .localRefAny => do cont (← localReference s args.id Mask.any.bits)
-    | .validateFullAny => do validateFullAny cfg args.arrT args.count args.data; cont s
-    | .validateFullStringlike => do validateFullStringlike cfg args.arrT args.data; cont s
-    | .validateFullKeyable => do
-      assertArrayType args.arrT .keyable
-      validateFullAny cfg args.arrT args.count args.data
-      cont s
-    | .validateFullStringlikeKeyable => do
-      assertArrayType args.arrT .keyable
-      validateFullStringlike cfg args.arrT args.data
-      cont s
-    | .assertArrayType m => do assertArrayType args.arrT m; cont s
-    | .beginArrayAny => do cont (← beginArrayAny cfg s args.arrT)
-    | .beginArrayKeyable => do assertArrayType args.arrT .keyable; cont (← beginArrayAny cfg s args.arrT)
-    | .unstack => do cont (← unstackRule s)
-    | .redispatch m emptyKey => do
-      let args' := if emptyKey then { args with key := none } else args
-      let s1 ← dispatch s s.cur.rule m args'
-      cont s1
-    | .parentDispatch m => do
-      let r ← parentRule s
-      let s1 ← dispatch s r m args
-      cont s1
-    | .lookupArrayDataType =>
-      match arrayDT args.arrT with
-      | none => .error .runtime
-      | some dt => cont s { args with arrDT := dt }
-    | .markObject src =>
-      let dt := match src with
-        | .objType => args.objType | .arrayDataType => args.arrDT | .cType => args.cType | .null => DT.null
-      do cont (← markObject cfg s dt)
-    | .restoreMarkerID => cont { s with markerID := s.cur.markerID }
-    | .zeroChunkReturn =>
-      if args.length = 0 then
-        -- tryEndArray(more, nil); return
-        if args.more then .ok s
-        else do
-          let cType := s.cur.dataType
-          let s1 ← unstackRule s
-          dispatch s1 s1.cur.rule .onChildContainerEnded { args with cType := cType }
-      else cont s
-    | .beginChunk k =>
-      let expected := match k with
-        | .any => elemsToBytes s.arrayType.elemBits args.length % 2 ^ 64
-        | _ => args.length
-      let total := (s.arrayTotal + expected) % 2 ^ 64
-      if total > s.arrayMax ∧ s.arrayMax > 0 then .error .limitArray
-      else
-        let s1 := { s with chunkExpected := expected, arrayTotal := total, chunkActual := 0, moreChunks := args.more }
-        -- elemCount > 0 always here (zeroChunkReturn ran first)
-        let r := match k with | .any => Rule.arrayChunk | .string => Rule.stringChunk | .stringBuilder => Rule.stringBuilderChunk
-        if args.length > 0 then cont (changeRule s1 r)
-        else .error .runtime
-    | .markCompletedChunk =>
-      let actual := s.chunkActual + args.data.length
-      if actual > s.chunkExpected then .error .chunkOverflow else cont { s with chunkActual := actual }
-    | .endChunkIfComplete k =>
-      if s.chunkActual = s.chunkExpected then
-        match k with
-        | .any =>
-          if s.moreChunks then cont (changeRule s .array)
-          else do
-            let cType := s.cur.dataType
-            let s1 ← unstackRule s
-            let s2 ← dispatch s1 s1.cur.rule .onChildContainerEnded { args with cType := cType }
-            cont s2
-        | _ =>
-          if s.utf8Rem.length > 0 then .error .utf8
-          else if s.moreChunks then cont (changeRule s .string)
-          else do
-            let cType := s.cur.dataType
-            let s1 ← unstackRule s
-            let s2 ← dispatch s1 s1.cur.rule .onChildContainerEnded { args with cType := cType }
-            cont s2
-      else cont s
-    | .streamStringData => do
-      let (s1, first, next) ← streamStringData s args.data
-      cont s1 { args with first := first, next := next }
-    | .validateFirst => do (if s.validator = .string then validateUtf8 args.first else pure ()); cont s
-    | .validateNext => do (if s.validator = .string then validateUtf8 args.next else pure ()); cont s
-    | .addFirst => cont { s with built := s.built ++ args.first }
-    | .addNext => cont { s with built := s.built ++ args.next }
-    | .addBuiltData => cont { s with built := s.built ++ args.data }
+    match execAct cfg a s args with
+    | .error e => .error e
+    | .ok (.next s' args') => runActs tbl cfg fuel rest s' args'
+    | .ok (.ret s') => .ok s'
+    | .ok (.call s' r m args' thenRet) =>
+      match runActs tbl cfg fuel (tbl r m) s' args' with
+      | .error e => .error e
+      | .ok s'' => if thenRet then .ok s'' else runActs tbl cfg fuel rest s'' args
 
 def fuel0 : Nat := 64
 
